@@ -18,6 +18,7 @@ run; documents unchanged.
 from __future__ import annotations
 
 import copy
+import os
 from typing import Any
 from typing import Dict
 from typing import List
@@ -339,7 +340,7 @@ def gen_b(rng, sched_rng, tier: str) -> Dict[str, Any]:
         "setup": setup,
         "programs": programs,
         "strategy": sched.draw_strategy(sched_rng, names),
-        "opcode": False,  # see DESIGN 3.2: opcode-level tracing is not repeatable within a 3.12 process
+        "opcode": sched_rng.random() < 0.25 and not os.environ.get("VERIF_C16_LINE_ONLY"),  # pre-empt at every bytecode instruction instead of every line
         "sched_seed": sched_rng.getrandbits(48),
         "decisions": None,
     }
@@ -412,7 +413,7 @@ def run_one(seed: int, tier: str, index: int) -> Dict[str, Any]:
         st.update(m.stats)
         st["runs_part_B_threads"] = 1
         st[f"B_strategy_{sc['strategy']['kind']}"] = 1
-        st["B_granularity_opcode" if sc["opcode"] else "B_granularity_line"] = 1
+        st["B_granularity_instruction" if sc["opcode"] else "B_granularity_line"] = 1
         st["B_context_switches"] = max(0, len(sim.decisions) - 1)
         st["B_real_lock_blocks"] = sim.real_blocks
         for site, n in sim.site_counts.items():
